@@ -259,6 +259,64 @@ def rule_summary_accepts_written_flags(A, R, rule):
     R.floor(rule, "(downstream state, written flag value) pairs examined in the requirement summary", n, 10)
 
 
+def rule_needed_marks_inputs(A, R, rule):
+    """(needed work is not lost) when the consider logic learns that a validated Ephemeral whose upstreams are still pending is
+    needed, it marks all of the job's incoming dependencies as needed on every path - otherwise its own up-to-date Ephemeral inputs
+    are judged unnecessary and skipped, and the job later runs without them"""
+    from rules_compare import skip_kind, consider_entry_fns, invalidated_states
+    from rules_more import gate_functions, error_exit_blocks, residual_blocks, _must_follow, _lift, requirement_field
+    C = A.classes()
+    reach = A.reach()
+    sk = skip_kind(A)
+    inv = invalidated_states(A)
+    cleanup_kinds = set(A.kind_of(s) for s in C["CleanupOffered"])
+    tabs = summary_table(A)
+    rf = requirement_field(A)
+    fns = [A.facts.body(n_) for n_ in sorted(consider_entry_fns(A, sk))]
+    req_bodies = [t_["fn"] for t_ in tabs]
+    pend = [s for s in sorted(reach) if A.kind_of(s) in cleanup_kinds and s not in C["Finished"] and s not in C["Ready"] and s not in C["Running"]
+            and s not in inv and s not in C["Init"]]
+    pos_ = positive_answer(A)
+    positive = {pos_} if pos_ is not None else set()
+    R.ob(rule, "the answer of the requirement summary under which an up-to-date Ephemeral is offered is unique", len(positive) == 1)
+    gates = gate_functions(A)
+    good_gates = [n_ for n_, g_ in gates.items() if g_["passing"] <= C["Finished"]]
+    if len(positive) == 1:
+        pos = list(positive)[0]
+        n = 0
+        for cb in fns:
+            for rb in req_bodies:
+                rt = rb.locals[0]
+                fty = rt.get("adt") if rt.get("adt") in A.uni.fin else [t_ for t_ in A.uni.fin if rt["s"].startswith("std::result::Result<%s," % t_)][0]
+                wrap = rt.get("adt") not in A.uni.fin
+                val = fin(fty, [pos])
+                rv = adt(RESULT, {0: (val,)}) if wrap else val
+                ov = {rb.name: (lambda rv_: (lambda I_, st_, fr_, bi_, t_, a_, sp_: [(rv_, st_)]))(rv)}
+                for gname in good_gates:
+                    ov[gname] = (lambda I_, st_, fr_, bi_, t_, a_, sp_: [(FALSE, st_)])
+                for s in pend:
+                    I, fr, out, col = forced_analysis(A, cb, ov, cfgd=dict(label="C04N", cell_init={"param": fin(A.L.jobstate, [s])}))
+                    asked = [x for k, x in I.rec.facts.items() if k[0] == "call" and x["callee"] == rb.name]
+                    gated = [x for k, x in I.rec.facts.items() if k[0] == "call" and x["callee"] in good_gates]
+                    if not asked or not gated:
+                        continue      # from this state the summary is not consulted while upstreams are pending
+                    ws = [x for k, x in I.rec.facts.items() if k[0] == "write_edge" and x["proj"] == rf
+                          and x["value"][0] == "fin" and set(x["value"][2]) == {pos}
+                          and is_role((x["b"], I.sym_info.get(x["b"], (frozenset(), None))[0]), "param")]
+                    blocks = set(b2 for b2 in (_lift(I, fr, x) for x in ws) if b2 is not None)
+                    okp = bool(ws)
+                    for c in asked:
+                        cbb = _lift(I, fr, c)
+                        if cbb is None or not _must_follow(A, I, fr, cb, cbb, blocks):
+                            okp = False
+                    n += 1
+                    R.ob(rule, "consider logic | %s, upstreams pending, a downstream needs it | all incoming dependencies are marked as needed"
+                         % A.sname(s), okp,
+                         detail="the Ephemeral is known to be needed but its own inputs are not told: its up-to-date Ephemeral upstreams are "
+                                "skipped and it later runs without them", site=A.site(asked[0]))
+        R.floor(rule, "validated states in which the summary is consulted while upstreams are pending", n, 1)
+
+
 def requirement_walkers(A):
     """functions that mark incoming dependencies as needed and walk on to the upstreams (found from the consider handler's facts)"""
     from rules_more import requirement_field
@@ -572,46 +630,7 @@ def check_C04(A, R, tier):
     if walkers:
         R.floor("R4.7", "upstream states examined in the transitive walk", n, 10)
     rule_walk_reaches_every_ephemeral(A, R, "R4.7", walkers)
-    # R4.8 the other direction (needed work is not lost): when the consider logic learns that a validated Ephemeral whose upstreams are
-    # still pending is needed, it marks all of the job's incoming dependencies as needed on every path - otherwise its own
-    # up-to-date Ephemeral inputs are judged unnecessary and skipped, and the job later runs without them
-    from rules_more import gate_functions, error_exit_blocks, residual_blocks, _must_follow, _lift
-    gates = gate_functions(A)
-    good_gates = [n_ for n_, g_ in gates.items() if g_["passing"] <= C["Finished"]]
-    if len(positive) == 1:
-        pos = list(positive)[0]
-        n = 0
-        for cb in fns:
-            for rb in req_bodies:
-                rt = rb.locals[0]
-                fty = rt.get("adt") if rt.get("adt") in A.uni.fin else [t_ for t_ in A.uni.fin if rt["s"].startswith("std::result::Result<%s," % t_)][0]
-                wrap = rt.get("adt") not in A.uni.fin
-                val = fin(fty, [pos])
-                rv = adt(RESULT, {0: (val,)}) if wrap else val
-                ov = {rb.name: (lambda rv_: (lambda I_, st_, fr_, bi_, t_, a_, sp_: [(rv_, st_)]))(rv)}
-                for gname in good_gates:
-                    ov[gname] = (lambda I_, st_, fr_, bi_, t_, a_, sp_: [(FALSE, st_)])
-                for s in pend:
-                    I, fr, out, col = forced_analysis(A, cb, ov, cfgd=dict(label="C04N", cell_init={"param": fin(A.L.jobstate, [s])}))
-                    asked = [x for k, x in I.rec.facts.items() if k[0] == "call" and x["callee"] == rb.name]
-                    gated = [x for k, x in I.rec.facts.items() if k[0] == "call" and x["callee"] in good_gates]
-                    if not asked or not gated:
-                        continue      # from this state the summary is not consulted while upstreams are pending
-                    ws = [x for k, x in I.rec.facts.items() if k[0] == "write_edge" and x["proj"] == rf
-                          and x["value"][0] == "fin" and set(x["value"][2]) == {pos}
-                          and is_role((x["b"], I.sym_info.get(x["b"], (frozenset(), None))[0]), "param")]
-                    blocks = set(b2 for b2 in (_lift(I, fr, x) for x in ws) if b2 is not None)
-                    okp = bool(ws)
-                    for c in asked:
-                        cbb = _lift(I, fr, c)
-                        if cbb is None or not _must_follow(A, I, fr, cb, cbb, blocks):
-                            okp = False
-                    n += 1
-                    R.ob("R4.8", "consider logic | %s, upstreams pending, a downstream needs it | all incoming dependencies are marked as needed"
-                         % A.sname(s), okp,
-                         detail="the Ephemeral is known to be needed but its own inputs are not told: its up-to-date Ephemeral upstreams are "
-                                "skipped and it later runs without them", site=A.site(asked[0]))
-        R.floor("R4.8", "validated states in which the summary is consulted while upstreams are pending", n, 1)
+    rule_needed_marks_inputs(A, R, "R4.8")
     R.explanation = ("Necessary conditions of 'only necessary work is executed', each over all paths of the code: Ephemerals nobody can need are "
                      "taken out of the graph at startup (complete candidate set, iterated to the fixpoint) and marked finished, and finished jobs "
                      "are never offered; a skippable job is offered only from an invalidated state or - Ephemerals - from a validated one, and "
